@@ -112,4 +112,44 @@ def serve (valid : Str → Bool) (c : Ctx) (reqs : List (List Str)) : Ctx × Lis
 def observe (valid : Str → Bool) (sockIp proto : Str) (trusted : List Str) (lines : List Str) : Obs :=
   (step valid (Ctx.init sockIp proto trusted) (.headers lines)).2
 
+/-! ### one connection as `HTTP1ServerConnection._server_request_loop` drives the adapter -/
+
+/-- how the application and the peer end a request -/
+inductive Outcome where
+  | keep      -- `finish()`, and the connection is kept alive
+  | last      -- `finish()`, and the connection is not kept alive (HTTP/1.0 without keep-alive, `Connection: close`)
+  | raises    -- `delegate.finish()` raises: no restore; `except _QuietException: conn.close(); return`
+  | abort     -- the peer goes away inside the body: `on_connection_close`
+  deriving Repr, BEq, DecidableEq
+
+/-- the adapter events of one connection: the loop stops reading requests after a header block that does not parse
+    (`HTTPInputError` → 400, close; the adapter is not called), after a request that is not kept alive, after a delegate
+    that raised, and when the peer has left -/
+def connEvents : List (List Str × Outcome) → List Ev
+  | [] => []
+  | (r, o) :: rest =>
+    match parseBlock r with
+    | .error _ => [.headers r]
+    | .ok _ =>
+      match o with
+      | .keep => .headers r :: .finish :: connEvents rest
+      | .last => [.headers r, .finish]
+      | .raises => [.headers r, .finishRaises]
+      | .abort => [.headers r, .close]
+
+/-- the requests that reach the application on that connection -/
+def servedReqs : List (List Str × Outcome) → List (List Str)
+  | [] => []
+  | (r, o) :: rest =>
+    match parseBlock r with
+    | .error _ => []
+    | .ok _ =>
+      match o with
+      | .keep => r :: servedReqs rest
+      | _ => [r]
+
+def Obs.isRequest : Obs → Bool
+  | .request _ _ => true
+  | _ => false
+
 end TornadoModel.C32
